@@ -1441,6 +1441,15 @@ uint32_t NifFile::CloneNamedNode(const std::string& nodeName, NifFile* srcNif) {
 	destNode->childRefs.Clear();
 	destNode->effectRefs.Clear();
 
+	if (srcNif != this) {
+		// Whatever else the node references (extra data, properties, ...) is a block index of the source file
+		std::set<NiRef*> refs;
+		destNode->GetChildRefs(refs);
+		destNode->GetPtrs(refs);
+		for (auto& r : refs)
+			r->Clear();
+	}
+
 	return hdr.AddBlock(std::move(destNode));
 }
 
